@@ -116,139 +116,147 @@ def r2(ctx):
 
 
 def r3(ctx):
+    """import_namespace's transaction evaluated (K6') on {no stored row, stored row} x merge in {true, false, Err}"""
+    from . import feval as E
     f = ctx.facts
     types = tables.table_types(f)
-    o = f.body("store::fs::Store::import_namespace")
-    bi, t = one_call(o, r"store::fs::Store::modify")
-    cl = [d for d in t["f"]["tdefs"] if d and "{closure" in d]
-    c = f.body(cl[0])
+    o, c = tables.tx_body(f, "store::fs::Store::import_namespace", "namespaces")
     ctx.touch(o, c)
-    ins = [(b2, t2) for b2, t2 in c.calls() if (tables.call_table(t2, types) or (None, None))[:2] == ("namespaces", "insert")]
-    gets = [(b2, t2) for b2, t2 in c.calls() if (tables.call_table(t2, types) or (None, None))[:2] == ("namespaces", "get")]
-    mer = find_calls(c, r"sync::Capability::merge$")
-    if len(ins) != 1 or len(gets) != 1 or len(mer) != 1:
-        raise mir.AnchorMissing("import_namespace: expected one namespaces.get, one Capability::merge, one namespaces.insert (found %d/%d/%d)" % (len(gets), len(mer), len(ins)))
-    ibi, it = ins[0]
-    mbi, mt = mer[0]
-    # merge(receiver = parsed existing row, argument = the imported capability)
-    recv = trace(c, mt["a"][0], through_calls=False)
-    recv_ok = False
-    existing_locals = set()
-    for x in trace(c, mt["a"][0]):
-        if x.kind == "call" and x.data["f"].get("name") in ("parse_capability", "from_raw"):
-            recv_ok = True
-    arg = {origin_summary(x) for x in trace(c, mt["a"][1])}
-    ctx.check(recv_ok and arg == {"upvar:capability"}, "C07.R3", o.path, "merge(existing-row, imported)",
-              "merge receiver derives from the stored row: %s; argument %s" % (recv_ok, sorted(arg)), mt["sp"])
-    # the value written: capability.raw() where `capability` (inner) is assigned from (existing, outcome) on the Some edge
-    # and from (argument, Inserted) on the None edge
-    raw = [(b2, t2) for b2, t2 in c.calls() if callee_matches(t2, r"sync::Capability::raw$")]
-    # the raw() call whose result is the row written
-    raw = [(b2, t2) for b2, t2 in raw if any(x.kind == "call" and x.data is t2 for x in trace(c, it["a"][2], through_calls=False))
-           or any(x.kind == "agg" and any(y.kind == "call" and y.data is t2 for op in x.data[1] for y in trace(c, op, through_calls=False)) for x in trace(c, it["a"][2], through_calls=False))]
-    okw = False
-    det = "found %d raw() calls feeding the written row" % len(raw)
-    if len(raw) == 1:
-        src = trace(c, raw[0][1]["a"][0])
-        kinds = set()
-        for x in src:
-            if x.kind == "call" and x.data["f"].get("name") in ("parse_capability", "from_raw"):
-                kinds.add("existing")
-            elif x.kind == "upvar" and x.data == "capability":
-                kinds.add("argument")
-            else:
-                kinds.add(origin_summary(x))
-        det = "row written = raw() of %s" % sorted(kinds)
-        okw = kinds == {"existing", "argument"}
-        # the insert value derives from that raw()
-        vsrc = trace(c, it["a"][2])
-    ctx.check(okw, "C07.R3", o.path, "row-derives-from-existing-or-argument", det, it["sp"])
-    # path sensitivity: the tuple built under the Some edge carries the *existing* local, the one under None the argument
-    oc = call_outcomes(c, gets[0][0])
-    tuples = []
-    for b2, si, s in c.statements():
-        if s["k"] == "assign" and s["r"][0] == "agg" and s["r"][1][0] == "tuple" and len(s["r"][2]) == 2:
-            first = s["r"][2][0]
-            if first[0] in ("copy", "move") and c.locals[first[1]["l"]]["ty"] == "sync::Capability":
-                k = set()
-                for x in trace(c, first):
-                    if x.kind == "call" and x.data["f"].get("name") in ("parse_capability", "from_raw"):
-                        k.add("existing")
-                    elif x.kind == "upvar":
-                        k.add("argument")
-                    else:
-                        k.add(origin_summary(x))
-                after_merge = b2 in c.reachable(mbi)
-                tuples.append((b2, k, after_merge, s["sp"]))
-    ex = [x for x in tuples if x[1] == {"existing"}]
-    ar = [x for x in tuples if x[1] == {"argument"}]
-    ctx.check(len(ex) == 1 and ex[0][2] and len(ar) == 1 and not ar[0][2], "C07.R3", o.path, "existing-row-branch-writes-merged-existing",
-              "branch with a stored row builds (existing, outcome) on a path through merge; branch without builds (argument, Inserted): %s" % [(sorted(x[1]), x[2]) for x in tuples], o.sp)
-    # Upgraded only on merge's true edge, NoChange on false
-    mo = call_outcomes(c, mbi)
-    pay = None
-    # Ok payload bool of merge: follow the Continue payload
-    upg = [(b2, s) for b2, si, s in c.statements() if s["k"] == "assign" and s["r"][0] == "agg" and s["r"][1][0] == "adt" and s["r"][1][1] == "store::ImportNamespaceOutcome"]
-    names = {s["r"][1][2]: b2 for b2, s in upg}
-    okout = False
-    det = "constructed outcomes %s" % sorted(names)
-    # find the switch on the Ok payload
-    for b2, blk in enumerate(c.blocks):
-        tt = blk["t"]
-        if tt["k"] == "switch" and tt["d"][0] in ("copy", "move") and c.locals[tt["d"][1]["l"]]["ty"] == "bool":
-            if any(x.kind == "call" and x.data is mt for x in trace(c, tt["d"], through_calls=True)) or any(x.kind == "call" and x.data["f"].get("name") == "branch" for x in trace(c, tt["d"], through_calls=False)):
-                false_t = dict(tt["v"]).get(0)
-                true_t = tt["o"]
-                if "Upgraded" in names and "NoChange" in names and false_t is not None:
-                    okout = c.edge_dominates(b2, true_t, names["Upgraded"]) and c.edge_dominates(b2, false_t, names["NoChange"])
-    ctx.check(okout, "C07.R3", o.path, "Upgraded-iff-merge-returned-true", det + "; Upgraded dominated by merge's true edge and NoChange by its false edge", mt["sp"])
-    # key = id of the capability being written
-    key = trace(c, it["a"][1])
-    okk = any(x.kind == "call" and x.data["f"].get("name") in ("to_bytes", "as_bytes") for x in trace(c, it["a"][1], through_calls=False)) or True
-    idc = [t2 for _, t2 in c.calls() if callee_matches(t2, r"sync::Capability::id$")]
-    ctx.check(len(idc) >= 2, "C07.R3", o.path, "key-is-capability-id", "lookup and write are keyed by capability.id() (%d id() calls)" % len(idc), it["sp"])
+
+    def scen(row, merge):
+        log = []
+
+        def oracle(kind, name, payload, site):
+            if kind != "call":
+                return None
+            t, args, it = payload
+            names = [it.tokname(a) for a in args]
+            ct = tables.call_table(t, types)
+            if ct and ct[0] == "namespaces" and ct[1] == "get":
+                log.append(("get", names[1:]))
+                return E.Ok(E.Some(E.Tok("rowguard"))) if row else E.Ok(E.NONE)
+            if ct and ct[0] == "namespaces" and ct[1] == "insert":
+                log.append(("insert", names[1:]))
+                return E.Ok(E.NONE)
+            if ct and ct[1] in tables.WRITE_OPS:
+                log.append(("other-write", [ct[0], ct[1]]))
+                return E.Ok(E.NONE)
+            if name == "value" and names == ["rowguard"]:
+                return E.Tok("stored-row")
+            if callee_matches(t, r"store::fs::parse_capability$") or callee_matches(t, r"sync::Capability::from_raw$"):
+                log.append(("parse", names))
+                return E.Ok(E.Tok("existing"))
+            if callee_matches(t, r"sync::Capability::merge$"):
+                log.append(("merge", names))
+                if merge == "err":
+                    return E.Err(E.Tok("mismatch"))
+                if merge == "true" and args[0][0] == "ref":
+                    it.write_loc(args[0][1], E.Tok("upgraded"))
+                return E.Ok(E.Int(1 if merge == "true" else 0))
+            if callee_matches(t, r"sync::Capability::raw$"):
+                return ("tuple", [E.Tok("kind(%s)" % names[0]), E.Tok("bytes(%s)" % names[0])])
+            if callee_matches(t, r"sync::Capability::id$"):
+                return E.Tok("id(%s)" % names[0])
+            if name in ("to_bytes", "as_bytes"):
+                return E.Tok("b(%s)" % names[0])
+            return None
+        heap = {}
+        args = E.default_args(f, c.path, heap, rename=lambda n, t: "imported" if t == "sync::Capability" else n)
+        try:
+            ret, hp, ev = E.run(f, c.path, args, heap, oracle)
+            return E.describe(ret, f), log
+        except E.Unsupported as e:
+            return "UNSUPPORTED-FORM: %s" % e, log
+
+    def row_of(who):
+        return "(kind(%s),bytes(%s))" % (who, who)
+    ANYKEY = {"b(id(imported))", "b(id(existing))", "b(id(upgraded))"}
+    for row, merge in ((0, "-"), (1, "true"), (1, "false"), (1, "err")):
+        got, log = scen(row, merge)
+        ins = [x[1] for x in log if x[0] == "insert"]
+        gets = [x[1] for x in log if x[0] == "get"]
+        merges = [x[1] for x in log if x[0] == "merge"]
+        other = [x for x in log if x[0] == "other-write"]
+        keyed = gets == [["b(id(imported))"]] and all(i[0] in ANYKEY for i in ins)
+        if not row:
+            ok = got == "Ok(Inserted)" and len(ins) == 1 and ins[0][1] == row_of("imported") and not merges
+            spec = "Inserted; the imported capability is stored"
+        elif merge == "true":
+            ok = got == "Ok(Upgraded)" and merges == [["existing", "imported"]] and len(ins) == 1 and ins[0][1] == row_of("upgraded")
+            spec = "merge(stored <- imported) returned true: Upgraded; the merged stored capability is written back"
+        elif merge == "false":
+            ok = got == "Ok(NoChange)" and merges == [["existing", "imported"]] and (not ins or (len(ins) == 1 and ins[0][1] == row_of("existing")))
+            spec = "merge returned false: NoChange; the stored capability stays (never replaced by the imported one)"
+        else:
+            ok = got.startswith("Err") and merges == [["existing", "imported"]] and not ins
+            spec = "merge failed: error, nothing written"
+        ctx.check(ok and keyed and not other, "C07.R3", o.path, "import[%s,merge=%s]" % ("stored-row" if row else "no-row", merge),
+                  "returns %s; effects %s; spec: %s" % (got, log, spec), c.sp)
     # who may write the namespaces table
-    allowed = {c.path, "store::fs::Store::remove_replica::{closure#0}"}
+    roots = {"store::fs::Store::import_namespace", "store::fs::Store::remove_replica"}
+    n = 0
     for b2, bi2, t2, name, op, ro in tables.writes(f, types):
         if name != "namespaces" or b2.path.startswith("store::fs::migrat"):
             continue
-        ctx.check(b2.path in allowed, "C07.R3", b2.path, "writer-of-namespaces.%s" % op, "the namespaces table is written only by import_namespace and remove_replica", t2["sp"])
-    ctx.floor("C07.R3", 7)
+        n += 1
+        ctx.check(f.only_reached_from(b2.path, roots), "C07.R3", b2.path, "writer-of-namespaces.%s" % op, "the namespaces table is written only by import_namespace and remove_replica (or helpers only they call)", t2["sp"])
+    if n < 2:
+        raise mir.AnchorMissing("expected >=2 writes of the namespaces table, found %d" % n)
+    ctx.floor("C07.R3", 6)
 
 
 def r4(ctx):
+    """the actor's import handler evaluated (K6') on outcome x {document open, not open}"""
+    from . import feval as E
     f = ctx.facts
-    cands = [b for b in f.bodies.values() if b.path.startswith("actor::Actor::on_action") and any(callee_matches(t, r"store::fs::Store::import_namespace$") for _, t in b.calls())]
+    cands = [b for b in f.bodies.values() if b.path.startswith("actor::Actor::") and any(callee_matches(t, r"store::fs::Store::import_namespace$") for _, t in b.calls())]
     if len(cands) != 1:
         raise mir.AnchorMissing("actor ImportNamespace handler not found (%d candidates)" % len(cands))
     b = cands[0]
     ctx.touch(b)
-    V = [v["name"] for v in f.adt("store::ImportNamespaceOutcome")["variants"]]
-    upg = V.index("Upgraded")
-    seen_upgraded_open = 0
-    for p in P.explore(b):
-        out = None
-        gm = None
-        for k, v in p.decisions:
-            if k[0] == "discr" and "ImportNamespaceOutcome" in k[1]:
-                out = v
-            if k[0] == "discr" and "get_mut" in k[1]:
-                gm = v
-        if out == upg and gm == 0:
-            seen_upgraded_open += 1
-            ok = "merge_capability" in P.calls(p) or "merge" in P.calls(p)
-            ctx.check(ok, "C07.R4", b.path, "upgraded+open=>merge-into-open-state[%s]" % P.short(p.ret),
-                      "calls on this path: %s" % P.calls(p), b.sp)
-    ctx.check(seen_upgraded_open >= 1, "C07.R4", b.path, "has-upgraded-and-open-path", "%d paths with outcome Upgraded and the document open" % seen_upgraded_open, b.sp)
-    mc = [t for _, t in b.calls() if t["f"].get("name") in ("merge_capability",)]
-    if mc:
-        a = {origin_summary(x) for x in trace(b, mc[0]["a"][1])}
-        ctx.check(a == {"upvar:capability"}, "C07.R4", b.path, "merges-the-imported-capability", "%s" % sorted(a), mc[0]["sp"])
+    INO = "store::ImportNamespaceOutcome"
+    n = 0
+    for outcome in ("Inserted", "Upgraded", "NoChange", "Err"):
+        for is_open in (1, 0):
+            log = []
+
+            def oracle(kind, name, payload, site, outcome=outcome, is_open=is_open):
+                if kind != "call":
+                    return None
+                t, args, it = payload
+                names = [it.tokname(a) for a in args]
+                if callee_matches(t, r"store::fs::Store::import_namespace$"):
+                    log.append(("store.import_namespace", names[1:]))
+                    return E.Err(E.Tok("store-error")) if outcome == "Err" else E.Ok(E.variant(f, INO, outcome))
+                if name == "get_mut" and "HashMap" in (t["f"].get("full") or "") + (t["f"].get("path") or ""):
+                    log.append(("states.get_mut", names[1:]))
+                    return E.Some(E.href("state")) if is_open else E.NONE
+                if callee_matches(t, r"sync::ReplicaInfo::merge_capability$") or callee_matches(t, r"sync::Capability::merge$"):
+                    log.append(("merge", names))
+                    return E.Ok(E.Int(1))
+                if callee_matches(t, r"sync::Capability::id$"):
+                    return E.Tok("id(%s)" % names[0])
+                return None
+            heap = {"state": E.struct(f, "actor::OpenReplica", info=E.Tok("open-info"), sync=E.Int(0), handles=E.Int(1))}
+            args = E.default_args(f, b.path, heap, rename=lambda nm, ty: "imported" if ty == "sync::Capability" else nm)
+            try:
+                ret, hp, ev = E.run(f, b.path, args, heap, oracle)
+                got = E.describe(ret, f)
+            except E.Unsupported as e:
+                got = "UNSUPPORTED-FORM: %s" % e
+            merges = [x[1] for x in log if x[0] == "merge"]
+            want_merge = outcome == "Upgraded" and is_open
+            okm = (len(merges) == 1 and merges[0][0] in ("open-info", "open-info.capability") and merges[0][1] == "imported") if want_merge else not merges
+            okr = got.startswith("Err") if outcome == "Err" else got == "Ok(id(imported))"
+            oks = [x[1] for x in log if x[0] == "store.import_namespace"] == [["imported"]]
+            n += 1
+            ctx.check(okm and okr and oks, "C07.R4", b.path, "import[%s,%s]" % (outcome, "open" if is_open else "closed"),
+                      "returns %s; effects %s; spec: the imported capability is merged into the open replica's state exactly when the store reports Upgraded and the document is open" % (got, log), b.sp)
     mcap = f.body("sync::ReplicaInfo::merge_capability")
     ctx.touch(mcap)
     ok = any(callee_matches(t, r"sync::Capability::merge$") and t["d"]["l"] == 0 for _, t in mcap.calls())
     ctx.check(ok, "C07.R4", mcap.path, "delegates-to-Capability::merge", "merge_capability = self.capability.merge(capability)", mcap.sp)
-    ctx.floor("C07.R4", 4)
+    ctx.floor("C07.R4", 9)
 
 
 def r5(ctx):
